@@ -87,7 +87,7 @@ func receiversC07() []namedD {
 	}
 }
 
-var argPoolC07 = []string{"0", "-1", "1.5", "1e30", `""`, `"a"`, `"0"`, "true", "$.arr", "$.zs", `"$.k"`, "{$.t}", "2"}
+var argPoolC07 = []string{"0", "-1", "1.5", "1e30", `""`, `"a"`, `"0"`, `"(["`, "true", "$.arr", "$.zs", `"$.k"`, "{$.t}", "2"}
 
 func funcNames() []string {
 	fs := mpath.ListFunctions()
